@@ -913,11 +913,11 @@ func TestVerifC18(t *testing.T) {
 	rec.Extra("function_pairs_on_shape_corpus", pairs)
 
 	// ---- (c) random: structured stream (no rejections, plain tombstones) and adversarial stream ----
-	n := vBudget(90, 1000)
+	n := vBudget(60, 1000)
 	for i := 0; i < n; i++ {
 		c18Run(t, rec, fl, "random", c18GenCase(rnd, false))
 	}
-	m := vBudget(36, 400)
+	m := vBudget(28, 400)
 	for i := 0; i < m; i++ {
 		c18Run(t, rec, fl, "adversarial", c18GenCase(rnd, true))
 	}
